@@ -23,6 +23,7 @@ EXPLANATION = (
     "container methods scale tsamp/nsamples consistently (shared with C08). Not decided: window centring, median values, "
     "detrend values. "
     "Since F47, the reference of detrend_1d takes its closed-form sums in float(m): an integer cubic in the length differs from it (R3)."
+    " Since F54: the mean decimators (serial and parallel twins) are not compiled with fastmath, because their quotient is truncated into the sample type (R1); Filterbank.downsample's C07 obligations are re-evaluated (R2)."
 )
 K = "sigpyproc.core.kernels"
 S = "sigpyproc.core.stats"
